@@ -1,6 +1,8 @@
 //! zv - conformance harness binding the TLA+ specification to the zerv implementation.
 //!   zv replay <module> <tlc-output>      TLC-generated behaviours -> real calls, compare
 //!   zv record <module> <seed> <n> <out>  seeded random real calls -> ndjson trace for TLC
+mod calendar;
+mod cli;
 mod order;
 mod pep440;
 mod sanitizer;
@@ -19,6 +21,8 @@ fn main() {
     match (args[1].as_str(), args[2].as_str()) {
         ("replay", "sanitizer") => sanitizer::replay(rest),
         ("record", "sanitizer") => sanitizer::record(rest),
+        ("replay", "calendar") => calendar::replay(rest),
+        ("record", "calendar") => calendar::record(rest),
         ("replay", "semver-order") => order::replay("semver", rest),
         ("replay", "pep440-order") => order::replay("pep440", rest),
         ("record", "semver-order") => order::record("semver", rest),
